@@ -204,15 +204,43 @@ def _ws_simplify(e, val):
     return e2
 
 
+def _is_boolean(x):
+    from sympy.logic.boolalg import Boolean
+    return isinstance(x, Boolean) or x is sp.true or x is sp.false or isinstance(x, bool)
+
+
+def bool_ite_normal(e):
+    """a truth value carried by a local (`outside = v < a or v > b; if ...: outside = False`) is a conditional with Boolean arms:
+    ITE(c, p, q) = (c and p) or (not c and q), so that the case split below ranges over the comparisons it is made of instead of
+    treating the whole conditional as one free truth value"""
+    if not isinstance(e, sp.Basic) or not e.args:
+        return e
+    args = [bool_ite_normal(a) for a in e.args]
+    if isinstance(e, ITE) and _is_boolean(args[1]) and _is_boolean(args[2]) and _is_boolean(args[0]):
+        return sp.Or(sp.And(args[0], args[1]), sp.And(sp.Not(args[0]), args[2]))
+    try:
+        return e.func(*args) if any(x is not y for x, y in zip(args, e.args)) else e
+    except Exception:          # noqa: BLE001 - left as it is: the atom check below then refuses to decide
+        return e
+
+
 def sym_equal_ws(a, b, max_atoms=10):
     """symx.sym_equal with one more fact: a shift loop not entered returns its argument.  The entry conditions of the shift loops
-    (on the unshifted value) join the case split."""
+    (on the unshifted value) join the case split.
+    VIOLATED-soundness: a witness case is a truth assignment to the atomic conditions; it is a real case only when the atoms are
+    independent up to the order facts `consistent` knows.  Comparisons (lt/le/eq of one canonical difference) and plain Boolean
+    symbols are; any other condition the engine keeps as an opaque 'atom' (a conditional truth value, a call) may be correlated with
+    the rest, so a difference found under such an assignment proves nothing: Undecided."""
     import itertools
+    a, b = bool_ite_normal(a), bool_ite_normal(b)
     atoms, ites = set(), []
     collect_ites(a, ites)
     collect_ites(b, ites)
     for i in ites:
         bool_atoms(i.args[0], atoms)
+    opaque = [e_ for k_, e_ in atoms if k_ == "atom" and not isinstance(e_, sp.Symbol)]
+    if opaque:
+        raise Undecided(f"condition `{str(opaque[0])[:80]}` is outside the comparisons the case split understands")
     if not ites:
         return sym_equal(a, b, max_atoms)
     for e in (a, b):
@@ -232,6 +260,20 @@ def sym_equal_ws(a, b, max_atoms=10):
     return True, None
 
 
+def _value_of_out_form(e):
+    """the VALUE of `np.<binary ufunc>(a, b, out=w)` is that of `np.<ufunc>(a, b)` (the result is also left in the work array w, which
+    matters to rules about w, not to the value handed on); only used where an expression is read as a value"""
+    class N(ast.NodeTransformer):
+        def visit_Call(self, node):
+            self.generic_visit(node)
+            f = node.func
+            if isinstance(f, ast.Attribute) and isinstance(f.value, ast.Name) and f.value.id in ("np", "numpy") and len(node.args) == 2 \
+                    and [k.arg for k in node.keywords] == ["out"] and f.attr in ("add", "subtract", "multiply", "divide", "true_divide"):
+                return ast.copy_location(ast.Call(func=f, args=node.args, keywords=[]), node)
+            return node
+    return ast.fix_missing_locations(N().visit(e))
+
+
 def _literal_dict(d):
     if isinstance(d, ast.Dict) and all(isinstance(k, ast.Constant) and isinstance(v, ast.Constant) for k, v in zip(d.keys, d.values)):
         return {k.value: v.value for k, v in zip(d.keys, d.values)}
@@ -239,6 +281,58 @@ def _literal_dict(d):
             all(k.arg is not None and isinstance(k.value, ast.Constant) for k in d.keywords):
         return {k.arg: k.value.value for k in d.keywords}
     return None
+
+
+def enum_members(mod, cls_name):
+    """{member: integer value} of a class of the module derived from IntEnum / Enum whose members are integer literals or auto()
+    (auto() of the standard enums: 1 for the first member, else the previous value + 1); None when the class is not of this form
+    (custom _generate_next_value_, computed values, aliases through other expressions)"""
+    if not mod.has(cls_name):
+        return None
+    try:
+        cls = mod.cls(cls_name)
+    except AnalysisError:
+        return None
+    if not any(src(b_).split(".")[-1] in ("IntEnum", "Enum", "IntFlag") for b_ in cls.bases):
+        return None
+    if any(isinstance(st, ast.FunctionDef) and st.name in ("_generate_next_value_", "__new__", "_missing_") for st in cls.body):
+        return None
+    out, last = {}, 0
+    for st in cls.body:
+        if isinstance(st, ast.Assign) and len(st.targets) == 1 and isinstance(st.targets[0], ast.Name):
+            v = st.value
+            if isinstance(v, ast.Constant) and isinstance(v.value, int) and not isinstance(v.value, bool):
+                last = v.value
+            elif isinstance(v, ast.Call) and src(v.func) in ("auto", "enum.auto") and not v.args and not v.keywords:
+                last = last + 1
+            else:
+                return None
+            out[st.targets[0].id] = last
+    return out or None
+
+
+def _handle_table(mod, d, owner=None):
+    """{string: integer code} of a literal dict whose values are integer literals or members of an integer enum of the module
+    (`E.MEMBER`, `cls.MEMBER` inside a method of E); None when a value is anything else"""
+    if isinstance(d, ast.Call) and isinstance(d.func, ast.Name) and d.func.id == "dict" and not d.args and all(k.arg is not None for k in d.keywords):
+        keys, vals = [k.arg for k in d.keywords], [k.value for k in d.keywords]
+    elif isinstance(d, ast.Dict) and all(isinstance(k, ast.Constant) for k in d.keys):
+        keys, vals = [k.value for k in d.keys], list(d.values)
+    else:
+        return None
+    out = {}
+    for k, v in zip(keys, vals):
+        if isinstance(v, ast.Constant) and isinstance(v.value, int) and not isinstance(v.value, bool):
+            out[k] = v.value
+        elif isinstance(v, ast.Attribute) and isinstance(v.value, ast.Name):
+            cname = owner if v.value.id == "cls" and owner else v.value.id
+            mem = enum_members(mod, cname)
+            if mem is None or v.attr not in mem:
+                return None
+            out[k] = mem[v.attr]
+        else:
+            return None
+    return out
 
 
 def mode_attribute(chk, kmod):
@@ -249,6 +343,12 @@ def mode_attribute(chk, kmod):
         formals = [a.arg for a in kmod.func("v_parallel_advection_eval_step").args.args]
         b = agree.bind_call(calls[0], formals) or {} if len(calls) == 1 else {}
         a = b.get("bound")
+        # int(x) / x.value / operator.index(x) of an enum member is its integer code
+        for _ in range(3):
+            if isinstance(a, ast.Call) and src(a.func) in ("int", "operator.index") and len(a.args) == 1 and not a.keywords:
+                a = a.args[0]
+            elif isinstance(a, ast.Attribute) and a.attr == "value" and isinstance(a.value, ast.Attribute):
+                a = a.value
         if isinstance(a, ast.Attribute) and isinstance(a.value, ast.Name) and a.value.id == "self":
             return src(a)
     except AnalysisError:
@@ -283,24 +383,71 @@ def edge_codes(chk, attr="self._edgeType"):
                      src(x.targets[0] if isinstance(x, ast.Assign) else x.target).split("[")[0] == f"self.{d.attr}"]
             return _literal_dict(tops[0].value) if len(tops) == 1 and not inits else None
         return _literal_dict(d)
-    for a in ast.walk(fn):
-        if isinstance(a, ast.Assign) and src(a.targets[0]) == attr:
-            v = a.value
-            if isinstance(v, ast.Subscript) and src(v.slice) == "edge":
-                t = dict_behind(v.value)
-                if t is not None:
+    def table_behind(d):
+        """like dict_behind, values may be members of an integer enum of the module"""
+        t_ = dict_behind(d)
+        if t_ is not None:
+            return t_
+        if isinstance(d, ast.Name):
+            defs = [x for x in ast.walk(fn) if isinstance(x, ast.Assign) and src(x.targets[0]) == d.id]
+            if len(defs) == 1:
+                return _handle_table(mod, defs[0].value)
+            tops = [x for x in mod.tree.body if isinstance(x, ast.Assign) and len(x.targets) == 1 and src(x.targets[0]) == d.id]
+            stores = [x for x in ast.walk(mod.tree) if isinstance(x, (ast.Subscript, ast.Call)) and
+                      ((isinstance(x, ast.Subscript) and isinstance(x.ctx, ast.Store) and src(x.value) == d.id) or
+                       (isinstance(x, ast.Call) and isinstance(x.func, ast.Attribute) and src(x.func.value) == d.id and x.func.attr in
+                        ("update", "pop", "setdefault", "clear", "popitem", "__setitem__")))]
+            return _handle_table(mod, tops[0].value) if len(tops) == 1 and not defs and not stores else None
+        return _handle_table(mod, d)
+    assigns = [a for a in ast.walk(fn) if isinstance(a, ast.Assign) and src(a.targets[0]) == attr]
+    for a in assigns:
+        v = a.value
+        if isinstance(v, ast.Subscript) and src(v.slice) == "edge":
+            t = table_behind(v.value)
+            if t is not None:
+                # the other assignments of the attribute (if any) only pass on a value that already is a member of the enum
+                # (`if isinstance(edge, E): self.X = edge`): they add accepted inputs, not strings
+                others = [o for o in assigns if o is not a]
+                if all(src(o.value) == "edge" for o in others):
+                    edge_codes.complete = True
                     return t, True, a        # an unknown string raises KeyError (or an explicit test before it): refused
+        if isinstance(v, ast.Call) and isinstance(v.func, ast.Attribute) and isinstance(v.func.value, ast.Name) and len(assigns) == 1 \
+                and len(v.args) == 1 and not v.keywords and src(v.args[0]) == "edge" and mod.has(f"{v.func.value.id}.{v.func.attr}"):
+            # `E.from_handle(edge)`: a class / static method whose body looks the string up in a literal table and returns the entry
+            m_ = mod.func(f"{v.func.value.id}.{v.func.attr}")
+            decs = [src(d_) for d_ in m_.decorator_list]
+            ps = [x.arg for x in m_.args.args]
+            if decs in (["classmethod"], ["staticmethod"]) and len(ps) == (2 if decs == ["classmethod"] else 1):
+                par = ps[-1]
+                body = [s_ for s_ in m_.body if not (isinstance(s_, ast.Expr) and isinstance(s_.value, ast.Constant))]
+                tabs = [s_ for s_ in body if isinstance(s_, ast.Assign) and len(s_.targets) == 1 and isinstance(s_.targets[0], ast.Name)
+                        and isinstance(s_.value, (ast.Dict, ast.Call))]
+                ret = body[-1] if body and isinstance(body[-1], ast.Return) else None
+                if len(tabs) == 1 and ret is not None and isinstance(ret.value, ast.Subscript) and src(ret.value.value) == tabs[0].targets[0].id \
+                        and src(ret.value.slice) == par and all(isinstance(s_, (ast.Assign, ast.Return)) or
+                                                                (isinstance(s_, ast.If) and all(isinstance(x, ast.Raise) for x in s_.body) and not s_.orelse)
+                                                                for s_ in body):
+                    t = _handle_table(mod, tabs[0].value, owner=v.func.value.id)
+                    if t is not None:
+                        chk.functions.add(f"{U.ADV}:{v.func.value.id}.{v.func.attr}")
+                        edge_codes.complete = True
+                        return t, True, a
     if node is None:
         raise AnalysisError("C11: boundary-mode dispatch not found in VParallelAdvection.__init__")
     cur = node
+    edge_codes.complete = True          # every arm of the chain was read (a table with an unread arm is not the whole table)
     while True:
         t = cur.test
+        read = False
         if isinstance(t, ast.Compare) and len(t.ops) == 1 and isinstance(t.ops[0], ast.Eq) and src(t.left) == "edge" \
                 and isinstance(t.comparators[0], ast.Constant):
             key = t.comparators[0].value
             for a in cur.body:
                 if isinstance(a, ast.Assign) and src(a.targets[0]) == attr and isinstance(a.value, ast.Constant):
                     table[key] = a.value.value
+                    read = True
+        if not read:
+            edge_codes.complete = False
         if len(cur.orelse) == 1 and isinstance(cur.orelse[0], ast.If):
             cur = cur.orelse[0]
             continue
@@ -419,6 +566,8 @@ def every_line_advanced(chk, results):
                                    f"({MODES.get(name, '')} for feet outside [vMin, vMax]) step() does not leave a zero line zero: with the spline of "
                                    f"the line equal to 0 the kernel still writes {wit['code'] if wit else '?'} in the case {wit['case'] if wit else '?'}; the "
                                    "skipped line stays 0, so the grid-level step disagrees with step() on the same line")
+                # VIOLATED-soundness: recognised guard forms only (any / all == 0 / count_nonzero of the very line handed to step), read with their
+                # polarity: the step is skipped for lines that are not identically zero
                 elif z is False:
                     verdict = False
                     why.insert(0, f"the step is skipped when `{cond_txt}`, which holds for lines that are not identically zero: these lines are "
@@ -463,7 +612,8 @@ def run(chk):
         ok = True
     elif dup:
         bad = f"modes {sorted(k for k, v in table.items() if v in dup)} share the code {sorted(dup)[0]}: one of them runs the other's boundary rule"
-    elif set(MODES) - set(table) and set(table) <= set(MODES) and table:
+    elif set(MODES) - set(table) and set(table) <= set(MODES) and table and getattr(edge_codes, "complete", False):
+        # VIOLATED: the whole dispatch was read (every arm of the chain / the literal table) and a mode of the property is not in it
         bad = f"mode(s) {sorted(set(MODES) - set(table))} of the property are no longer offered (mode table {table})"
     chk.pat("E3-edge-modes", node, "edge -> self._edgeType", ok, f"modes {table}; any other string is refused", bad,
             file=U.ADV, func="VParallelAdvection.__init__")
@@ -503,6 +653,9 @@ def run(chk):
                 foot = args["vPts"].fn(i)
                 spec = spec_mode(name, args, i)
             results[name] = got
+            # VIOLATED-soundness: `got` is the kernel's own f[i] for this mode's code (symbolic execution: unknown constructs raise Undecided),
+            # `spec` is written in the kernel's own foot / domain ends; the comparison is a case split over comparisons only (sym_equal_ws
+            # refuses opaque conditions); the code of the mode comes from a completely read table (E3-edge-modes)
             okm, wit = sym_equal_ws(got, spec)
             why = f"kernel branch for code {table[name]} does not implement mode '{name}': {wit}"
             if not okm and spec.has(WhileShift) and not got.has(WhileShift):
@@ -529,7 +682,8 @@ def run(chk):
         except (Undecided, KeyError) as e:
             chk.ob("F2-boundary-rule", fnk, f"mode '{name}'", None, "outside the extractable fragment: " +
                    (f"the kernel has no parameter {e}" if isinstance(e, KeyError) else str(e)), file=U.ADVK, func=GEN)
-    agree.check_wrapper_dispatch(chk, kmod, "v_parallel_advection_eval_step", GEN)
+    from .C05 import wrapper_dispatch, roles as _roles
+    wrapper_dispatch(chk, kmod, "v_parallel_advection_eval_step", GEN)
     # call site in VParallelAdvection.step
     step = chk.func(U.ADV, "VParallelAdvection.step")
     calls = [c for c in ast.walk(step) if isinstance(c, ast.Call) and isinstance(c.func, ast.Name)
@@ -548,11 +702,11 @@ def run(chk):
             ast.copy_location(x, a0)
     ast.copy_location(cres, c)
     ast.fix_missing_locations(cres)
-    agree.check_roles(chk, U.ADV, "VParallelAdvection.step", cres, formals, {
+    _roles(chk, U.ADV, "VParallelAdvection.step", cres, formals, {
         "f": "f", "r": "rPos", "self._points[0]": "vMin", "self._points[-1]": "vMax",
         "self._spline.basis.knots": "kts", "self._spline.basis.degree": "deg", "self._spline.coeffs": "coeffs",
         "self._edgeType": "bound", "self._spline.basis.cubic_uniform": "cubic_uniform_splines",
-    }, const_recv="self._constants")
+    }, const_recv="self._constants", callee=kmod.func("v_parallel_advection_eval_step"))
     b = agree.bind_call(c, formals) or {}
     from ..core import same_expr
     from ..npsym import NpSym
@@ -584,7 +738,7 @@ def run(chk):
         try:
             from .C05 import library_forms
             import copy as _copy
-            val = NpSym(env={"c": cc, "dt": dt}, hooks={"self._points": P}).ev(library_forms(_copy.deepcopy(feet)))
+            val = NpSym(env={"c": cc, "dt": dt}, hooks={"self._points": P}).ev(library_forms(_value_of_out_form(_copy.deepcopy(feet))))
             okf = bool(alg_equal(val, P - cc * dt))
             detail = "feet are v_node - c*dt" if okf else \
                 f"the feet handed to the kernel are `{src(feet)}` = {val}, expected v_node - c*dt = {P - cc * dt}: the interpolant is evaluated at other points"
@@ -622,9 +776,15 @@ def run(chk):
     ci = [n_ for n_ in ast.walk(step) if isinstance(n_, ast.Call) and isinstance(n_.func, ast.Attribute) and n_.func.attr == "compute_interpolant"]
     oki = badi = None
     pos = lambda n_: (n_.lineno, n_.col_offset)
-    if not ci:
+    other_calls = [n_ for n_ in ast.walk(step) if isinstance(n_, ast.Call) and n_ is not c and not any(n_ is x for x in ast.walk(c))
+                   and not (isinstance(n_.func, ast.Name) and n_.func.id in ("len", "range", "float", "int", "isinstance"))
+                   and not (isinstance(n_.func, ast.Attribute) and src(n_.func.value) in ("np", "numpy"))]
+    if not ci and not other_calls:
+        # not FINDING the interpolation is a defect only when step contains no other call that could perform it
         badi = ("the spline of f is not recomputed in step: the kernel evaluates the spline left over from the previous call (another "
                 "line's values) at the feet")
+    elif not ci:
+        pass
     elif len(ci) == 1 and src(ci[0].func.value) == "self._interpolator":
         bi = agree.bind_call(ci[0], ["ug", "spl"]) or {}
         if set(bi) == {"ug", "spl"} and same_expr(bi["ug"], "f") and same_expr(bi["spl"], "self._spline"):
